@@ -32,7 +32,8 @@ class BuildLock:
 FLAVOUR_SPECS = {
     "plain_mk256off": ("plain", (), ("VEC256_CFLAGS=",)),          # the 256-bit back end compiled out the way options.mak documents
     "plain_nosimd": ("plain", ("SKINNY_VERIF", "SKINNY_VERIF_VEC128_MATH=0", "SKINNY_VERIF_VEC256_MATH=0"), ()),
-    "plain_w32": ("plain", ("SKINNY_VERIF", "SKINNY_VERIF_64BIT=0"), ()),                     # 32-bit words, SIMD back ends as shipped
+    "plain_w32": ("plain", ("SKINNY_VERIF", "SKINNY_VERIF_64BIT=0"), ()),
+    "tsanhook_w32": ("tsanhook", ("SKINNY_VERIF", "SKINNY_VERIF_64BIT=0"), ()),               # thrsim on the 32-bit-word code paths                     # 32-bit words, SIMD back ends as shipped
     "cthook_w32": ("cthook", ("SKINNY_VERIF", "SKINNY_VERIF_64BIT=0"), ()),
     "cthook_w32_u0_nosimd": ("cthook", ("SKINNY_VERIF", "SKINNY_VERIF_64BIT=0", "SKINNY_VERIF_UNALIGNED=0", "SKINNY_VERIF_VEC128_MATH=0", "SKINNY_VERIF_VEC256_MATH=0"), ()),
     "cthook_neutral": ("cthook", ("SKINNY_VERIF", "SKINNY_VERIF_LITTLE_ENDIAN=0", "SKINNY_VERIF_VEC128_MATH=0", "SKINNY_VERIF_VEC256_MATH=0"), ()),
